@@ -316,6 +316,22 @@ def prove(prop_file, pins=None):
             "checker_cmd": "make -C coq -j16 theories/props/%s.vo  (coqc 8.16.1, full .vo build; Print Assumptions parsed)" % prop_file}
 
 
+def coqchk(check, prop_file, timeout=1500):
+    """thorough tiers: re-check props/<prop_file>.vo and everything it depends on with the independent checker and
+    make sure it reports no axioms; anything else is a broken proof obligation (tie break)."""
+    with Lock("coq"):
+        t0 = time.time()
+        rc, out = run(["coqchk", "-o", "-silent", "-Q", "theories", "Mos", "Mos.props." + prop_file], cwd=COQ, timeout=timeout)
+    axioms = None
+    m = re.search(r"\* Axioms:\s*(.*?)(?:\n\s*\n|\n\* |\Z)", out, re.S)
+    if m:
+        axioms = " ".join(m.group(1).split())
+    check.extra["coqchk"] = {"rc": rc, "axioms": axioms, "seconds": round(time.time() - t0, 1), "tail": out[-300:]}
+    if rc != 0 or axioms is None or axioms != "<none>":
+        check.tie_break("coqchk", "coqchk does not accept props/%s.vo without axioms (rc=%s, axioms=%s): %s" % (prop_file, rc, axioms, out[-600:]))
+    log("coqchk %s: rc=%s axioms=%s in %.1fs" % (prop_file, rc, axioms, time.time() - t0))
+
+
 def build_model(unit="model"):
     """extract a model unit to OCaml and build its driver.
 
